@@ -113,6 +113,14 @@ func tryValidate(val reflect.Value) error {
 	if (t.Kind() == reflect.Ptr || t.Kind() == reflect.Interface) && val.IsNil() {
 		return nil
 	}
+	for val.Kind() == reflect.Interface {
+		// validate the value stored in an interface typed field
+		val = val.Elem()
+		t = val.Type()
+		if t.Kind() == reflect.Ptr && val.IsNil() {
+			return nil
+		}
+	}
 
 	if t.Implements(tValidator) {
 		validator = val.Interface().(Validator)
